@@ -181,6 +181,8 @@ std::string opGenGame(const std::vector<std::string>& a) {
         out.push_back(TextIO::moveToUCIString(m));
         UndoInfo ui; pos.makeMove(m, ui);
         TextIO::fixupEPSquare(pos);
+        if ((style & 4) && pos.getEpSquare().isValid() && 3 * i >= plies)   // end the game in a position with an e.p. right
+            break;
     }
     return "ok " + vJoin(out) + " | " + TextIO::toFEN(pos);
 }
